@@ -375,13 +375,14 @@ def set_at(obj, path, value):
     obj[path[-1]] = value
 
 
-def mutate_scalar(v, rng):
-    """A different value of the same JSON type."""
+def mutate_scalar(v, rng, bool_int_swap=True):
+    """A different value of the same JSON type (or, for booleans and the integers 0 / 1, the value of the other type that
+    compares equal in Python)."""
     if isinstance(v, bool):
         # (sometimes the integer that compares equal to it in Python: another JSON value, other signed bytes)
-        return (1 if v else 0) if rng.random() < 0.5 else (not v)
+        return (1 if v else 0) if (bool_int_swap and rng.random() < 0.5) else (not v)
     if isinstance(v, int):
-        if v in (0, 1) and rng.random() < 0.4:
+        if bool_int_swap and v in (0, 1) and rng.random() < 0.4:
             return bool(v)
         return v + rng.choice([1, -1, 7])
     if isinstance(v, str):
@@ -416,7 +417,9 @@ def edit_payload_leaf(content, rng, path=None):
             return None
         path = path or rng.choice(ls)
         old = get_at(c["signed"], path)
-        new = mutate_scalar(old, rng)
+        # (a step's threshold is the one integer the model reads into a typed field: Python takes `true` for 1 there -
+        #  bool is an int -, the model's reader refuses it at load; both refuse the edited file, for different reasons)
+        new = mutate_scalar(old, rng, bool_int_swap=(not path or path[-1] != "threshold"))
         set_at(c["signed"], path, new)
         return c, {"path": list(path), "old": old, "new": new}
     body = json.loads(base64.b64decode(c["payload"]))
@@ -425,7 +428,7 @@ def edit_payload_leaf(content, rng, path=None):
         return None
     path = path or rng.choice(ls)
     old = get_at(body, path)
-    new = mutate_scalar(old, rng)
+    new = mutate_scalar(old, rng, bool_int_swap=(not path or path[-1] != "threshold"))
     set_at(body, path, new)
     c["payload"] = base64.b64encode(json.dumps(body, sort_keys=True).encode("utf8")).decode()
     return c, {"path": list(path), "old": old, "new": new}
